@@ -9,7 +9,8 @@
 //!   independently of each other) and the linear block scaled by 2^j. Judged against the point-wise
 //!   definition on plain arrays (`vkit::refmath::matvec`), for the control points and for
 //!   `(M*c).evaluate(t)` vs `M` applied to the oracle's `C(t)`; EXTRA: against vek's own
-//!   `M * v` / `mul_point` / `mul_point_2d` of vek's own `c.evaluate(t)`, and matrices produced by vek's own
+//!   `M * v` / `mul_point` / `mul_point_2d` of vek's own `c.evaluate(t)` (the oracle never reads the bottom row, so
+//!   independence of the bottom row is part of the judgement), and matrices produced by vek's own
 //!   constructors (`translation_2d/3d`, `scaling_2d/3d`, `shearing_x/y`, `identity`, `zero`) read back
 //!   through their public fields.
 //! * `regime-core-*`, `regime-elevate-*`, `regime-tangent-*`: every relation of the core checks (including
@@ -308,7 +309,8 @@ pub(crate) fn gen_linear<S: XDom, const D: usize>(tp: &mut Tape, cx: &mut Cx) ->
         }
         8 => {
             let (i, j) = (tp.below(D), tp.below(D));
-            let e = tp.int(1, param_exps::<S>().0.min(20)) as i32;
+            // visible as long as 2^-e * max|P| exceeds the tolerance 16 eps * D * max|P|
+            let e = tp.int(1, match S::NAME { "f64" => 40, "f32" => 16, _ => 30 }) as i32;
             let d = p2::<S>(-e);
             a[i][j] = a[i][j] + if tp.bool() { -d } else { d };
             cx.label("linear: identity +- 2^-e in one entry");
@@ -461,7 +463,7 @@ fn scale_mat<S: XDom, const D: usize, const E: usize>(a: &mut [[S; E]; E], kl: i
 }
 
 macro_rules! impl_sx {
-    ($Curve:ident, $N:expr, $D:expr, $E:expr, $MatD:ident, $MatE:ident, $vd:path, $ad:path, $mul_point:ident, $Other:ident, $ctors:ident) => {
+    ($Curve:ident, $N:expr, $D:expr, $E:expr, $MatD:ident, $MatE:ident, $ad:path, $mul_point:ident, $Other:ident, $ctors:ident) => {
         impl<S: XDom> Sx<S, $N, $D> for $Curve<S> {
             fn structured(cx: &mut Cx, tp: &mut Tape, ps: &[[S; $D]; $N], kt: i32, kl: i32, t: S) -> CaseResult {
                 const N: usize = $N;
@@ -490,14 +492,6 @@ macro_rules! impl_sx {
                     let (r, k) = (rm::$MatE::<S>::from_arr(&ae), cm::$MatE::<S>::from_arr(&ae));
                     judge::<S, Self, N, D, E>(cx, concat!("row-major ", stringify!($MatE)), &ae, ps, t, r * c, $ad(&r.$mul_point(ev)))?;
                     judge::<S, Self, N, D, E>(cx, concat!("column-major ", stringify!($MatE)), &ae, ps, t, k * c, $ad(&k.$mul_point(ev)))?;
-                    // the bottom row is documented to play no role (mul_point: `self * from_point(p)`, w dropped)
-                    let mut aff = ae;
-                    aff[D] = [S::zero(); E];
-                    aff[D][D] = S::one();
-                    if aff != ae {
-                        check_eq!(cx, (r * c).read(), (rm::$MatE::<S>::from_arr(&aff) * c).read(), concat!("row-major ", stringify!($MatE), " * curve does not depend on the bottom row"));
-                        check_eq!(cx, (k * c).read(), (cm::$MatE::<S>::from_arr(&aff) * c).read(), concat!("column-major ", stringify!($MatE), " * curve does not depend on the bottom row"));
-                    }
                 }
                 // matrices produced by vek's own constructors, read back through the public fields
                 $ctors!(cx, tp, ps, kt, t, c, ev);
@@ -606,10 +600,10 @@ macro_rules! ctors3 {
     }};
 }
 
-impl_sx!(QuadraticBezier2, 3, 2, 3, Mat2, Mat3, vk::v2, vk::a2, mul_point_2d, QuadraticBezier3, ctors2);
-impl_sx!(CubicBezier2, 4, 2, 3, Mat2, Mat3, vk::v2, vk::a2, mul_point_2d, CubicBezier3, ctors2);
-impl_sx!(QuadraticBezier3, 3, 3, 4, Mat3, Mat4, vk::v3, vk::a3, mul_point, QuadraticBezier2, ctors3);
-impl_sx!(CubicBezier3, 4, 3, 4, Mat3, Mat4, vk::v3, vk::a3, mul_point, CubicBezier2, ctors3);
+impl_sx!(QuadraticBezier2, 3, 2, 3, Mat2, Mat3, vk::a2, mul_point_2d, QuadraticBezier3, ctors2);
+impl_sx!(CubicBezier2, 4, 2, 3, Mat2, Mat3, vk::a2, mul_point_2d, CubicBezier3, ctors2);
+impl_sx!(QuadraticBezier3, 3, 3, 4, Mat3, Mat4, vk::a3, mul_point, QuadraticBezier2, ctors3);
+impl_sx!(CubicBezier3, 4, 3, 4, Mat3, Mat4, vk::a3, mul_point, CubicBezier2, ctors3);
 
 pub fn structured_case<S: XDom, C: Sx<S, N, D>, const N: usize, const D: usize>(tp: &mut Tape, cx: &mut Cx) -> CaseResult {
     // control polygon: ordinary in 3/4 of the cases (the matrix is the subject here), degenerate otherwise
